@@ -1423,6 +1423,15 @@ def run_dispatch(ctx, tlc_out, selftest=False):
             k0 = late_k[0]
             rows[k0 + 1]["tr"][cases[k0][-1] - 1] = 0  # a late type with its own handler: predicted "none bound"
         n_bad_selftest = {"registered": 0, "late": 0}
+        reported = set()
+
+        def violation(fp, what, rep):
+            """One report per fingerprint (a wrong handler name shows in every case that defines the handler)."""
+            ctx.count("dispatch_mismatches")
+            if fp not in reported:
+                reported.add(fp)
+                ctx.violation(fp, what, rep)
+
         engines = {"mf": "MultiFunction", "tr": "Transformer", "dt": "DAGTraverser"}
         code_names = [c._ufl_handler_name_ for c in classes]
         for i in range(n_real):
@@ -1457,8 +1466,8 @@ def run_dispatch(ctx, tlc_out, selftest=False):
                         ctx.count(f"baseform_dispatch:{engine}:{names[i]}:got-{hname}-nearest-{wn}")
                         continue
                     by_name = bool(want) and key != "dt" and code_names[want - 1] != hn[want - 1]
-                    who = names[i] if i < n_real else "late-type:" + shape_of(names[i])
-                    ctx.violation(
+                    who = names[i] if i < n_real else "late-type:" + shape_of(names[want - 1] if by_name else names[i])
+                    violation(
                         f"C19:dispatch:{engine}:{who}" + (":handler-name" if by_name else ""),
                         f"{engine} subclass defining {[hn[t - 1] for t in case]} binds {names[i]}{where} to {hname}; nearest ancestor with a handler is {wn}"
                         + (f" (handler name of {wn}: {hn[want - 1]!r}, the code derives {code_names[want - 1]!r})" if by_name else ""),
@@ -1490,7 +1499,7 @@ def run_dispatch(ctx, tlc_out, selftest=False):
                     ctx.count(f"baseform_dispatch:{lib['name']}:{names[i]}:got-{hname}-nearest-{wn}")
                     continue
                 by_name = bool(want) and code_names[want - 1] != hn[want - 1]
-                ctx.violation(
+                violation(
                     f"C19:dispatch:library-table:{lib['cls'].__name__}:{names[i]}" + (":handler-name" if by_name else ""),
                     f"{lib['name']} (handlers {[hn[t - 1] for t in defs]}) binds {names[i]} to its handler {hn[have - 1] if have > 0 else 'ufl_type' if have == 0 else '<other attribute>'!r}; "
                     f"the nearest ancestor for which it defines a handler is {wn} ({hn[want - 1] if want else 'ufl_type'!r})",
